@@ -475,6 +475,68 @@ Definition mk_fadd (x y : fview) (s : nat) : fprop := mkfprop (prune_fadd x y s)
    Opposite(y).  The differential (family fprop_exact, kind `sub`) checks this bit for bit. *)
 Definition mk_fsub (x y : fview) (s : nat) : fprop := mk_fadd x (FOpp y) s.
 
+(* ---------------------------------------------------------------- Mul (float and mixed arms) *)
+(* impl Mul / Div for Val (variables/core.rs:261-314): int * int stays an integer (i32 overflow is not modelled: Z); every
+   other product is computed in f64.  Division always yields a float; a zero integer divisor or a float divisor with
+   |b| < f64::EPSILON yields +-inf by the sign test `a >= 0`. *)
+Definition c_pinf : f64 := of_bits 0x7ff0000000000000.
+Definition c_ninf : f64 := of_bits 0xfff0000000000000.
+Definition c_safe_div : f64 := fmul c_epsilon (of_bits safe_div_factor_bits).   (* f64::EPSILON * 1000.0 *)
+Definition val_mul (a b : fval) : fval :=
+  match a, b with VlI x, VlI y => VlI (x * y) | _, _ => VlF (fmul (as_f a) (as_f b)) end.
+Definition val_div (a b : fval) : fval :=
+  let tiny := match b with VlI y => y =? 0 | VlF y => flt (fabs y) c_epsilon end in
+  let nonneg := match a with VlI x => 0 <=? x | VlF x => fge x c_zero end in
+  if tiny then VlF (if nonneg then c_pinf else c_ninf) else VlF (fdiv (as_f a) (as_f b)).
+(* Val::is_safe_divisor / safe_div (core.rs:88-103) *)
+Definition val_safe_divisor (b : fval) : bool :=
+  match b with VlI y => negb (y =? 0) | VlF y => fge (fabs y) c_safe_div end.
+Definition val_safe_div (a b : fval) : option fval := if val_safe_divisor b then Some (val_div a b) else None.
+(* Val::range_contains_unsafe_divisor (core.rs:113-120) *)
+Definition range_unsafe (mn mx : fval) : bool :=
+  match mn, mx with
+  | VlI a, VlI b => (a <=? 0) && (0 <=? b)
+  | _, _ => fle (as_f mn) c_epsilon && fge (as_f mx) (fneg c_epsilon)
+  end.
+(* `iter().fold(first, |acc, &x| if x < acc { x } else { acc })` and its mirror image (the first element is visited again) *)
+Definition val_fold_min (first : fval) (l : list fval) : fval := fold_left (fun acc x => if val_lt x acc then x else acc) l first.
+Definition val_fold_max (first : fval) (l : list fval) : fval := fold_left (fun acc x => if val_gt x acc then x else acc) l first.
+Fixpoint somes (l : list (option fval)) : list fval :=
+  match l with [] => [] | Some v :: t => v :: somes t | None :: t => somes t end.
+(* the back-propagation block of Mul::prune (props/mul.rs:50-69 for x, 73-92 for y): candidates s/d for s in [s_min, s_max],
+   d in [d_min, d_max] (in that order), divisions by an unsafe corner dropped, min and max of what is left *)
+Definition mul_back (w : fview) (smin smax dmin dmax : fval) (c : fctx) : option fctx :=
+  if range_unsafe dmin dmax then Some c else
+  match somes [val_safe_div smin dmin; val_safe_div smin dmax; val_safe_div smax dmin; val_safe_div smax dmax] with
+  | [] => Some c
+  | c0 :: rest =>
+    match fv_set_min w (val_fold_min c0 (c0 :: rest)) c with
+    | None => None
+    | Some c1 => fv_set_max w (val_fold_max c0 (c0 :: rest)) c1
+    end
+  end.
+(* Mul<U,V>::prune (props/mul.rs:18-95), x * y == s with s a VarId.  The four operand bounds are read ONCE, before any
+   setter call, and reused by both back-propagation blocks; s.min / s.max are re-read after the two forward calls. *)
+Definition prune_fmul (x y : fview) (s : nat) (c : fctx) : option fctx :=
+  let xmin := fv_min x (fst c) in let xmax := fv_max x (fst c) in
+  let ymin := fv_min y (fst c) in let ymax := fv_max y (fst c) in
+  let p0 := val_mul xmin ymin in
+  let ps := [p0; val_mul xmin ymax; val_mul xmax ymin; val_mul xmax ymax] in
+  match xset_min s (val_fold_min p0 ps) c with
+  | None => None
+  | Some c1 =>
+    match xset_max s (val_fold_max p0 ps) c1 with
+    | None => None
+    | Some c2 =>
+      let smin := var_min (fget (fst c2) s) in let smax := var_max (fget (fst c2) s) in
+      match mul_back x smin smax ymin ymax c2 with
+      | None => None
+      | Some c3 => mul_back y smin smax xmin xmax c3
+      end
+    end
+  end.
+Definition mk_fmul (x y : fview) (s : nat) : fprop := mkfprop (prune_fmul x y s) (s :: under_list x ++ under_list y).
+
 (* ---------------------------------------------------------------- IntLinLe on a mixed store *)
 (* IntLinLe::prune (props/linear.rs:125-175) as it behaves when some of its variables are FLOAT variables -- which is
    what the runtime API produces for a fluent comparison whose coefficients and constant are all integer literals
